@@ -536,6 +536,7 @@ namespace
                     uint64_t z = (uint64_t)val * 1000003 + i;
                     uint64_t h = splitmix64(z);
                     src[i] = (val & 1) ? "abcdxy"[h % 6] : (char)('a' + h % 26); // small alphabet: many short tokens for split
+                    if (val % 8 == 3) src[i] = (i & 1) ? (char)('a' + h % 2) : 'x'; // one-letter tokens: more tokens than a split result holds
                 }
                 src[len] = 0;
                 if (len > N) { overflow_offered = true; probe("ctor_more_than_N_elements"); fault("input_beyond_capacity"); }
@@ -586,6 +587,13 @@ namespace
                 // split into a static_vector<static_string<4>, 3>: more tokens than 3 and tokens longer than 4 must be
                 // dropped / cut, never written outside the result
                 char delim = (char)('a' + val % 4);
+                if (val % 2)
+                { // the commonest of a..d in the string: as many tokens as this string can give
+                    size_t cnt[4] = {0, 0, 0, 0}, best = 0;
+                    for (char ch : m) if (ch >= 'a' && ch <= 'd') cnt[ch - 'a']++;
+                    for (size_t q = 1; q < 4; q++) if (cnt[q] > cnt[best]) best = q;
+                    delim = (char)('a' + best);
+                }
                 auto parts = x->template split<3, 4>(delim);
                 std::vector<std::string> want;
                 size_t i = 0;
